@@ -13,6 +13,7 @@ import (
 
 	"github.com/golang/protobuf/proto"
 	"github.com/xuperchain/xupercore/bcs/ledger/xledger/def"
+	"github.com/xuperchain/xupercore/bcs/ledger/xledger/state/utxo/txhash"
 	pb "github.com/xuperchain/xupercore/bcs/ledger/xledger/xldgpb"
 	"github.com/xuperchain/xupercore/lib/cache"
 	cryptoClient "github.com/xuperchain/xupercore/lib/crypto/client"
@@ -1203,6 +1204,18 @@ func (l *Ledger) VerifyBlock(block *pb.InternalBlock, logid string) (bool, error
 	if errv != nil {
 		l.xlog.Warn("VerifyMerkle error", "logid", logid, "error", errv)
 		return false, nil
+	}
+	// the merkle tree binds the transaction IDS; the ledger files every body under the id it claims and serves
+	// it for every block that carries this id: a body that does not hash to its id must not get that far
+	for _, tx := range block.Transactions {
+		if tx.GetVersion() <= 0 {
+			continue // the root transaction of a genesis block has no content hash
+		}
+		txid, idErr := txhash.MakeTransactionID(tx)
+		if idErr != nil || !bytes.Equal(txid, tx.Txid) {
+			l.xlog.Warn("VerifyBlock txid does not match the transaction", "logid", logid, "txid", utils.F(tx.Txid))
+			return false, nil
+		}
 	}
 
 	k, err := l.cryptoClient.GetEcdsaPublicKeyFromJsonStr(string(block.Pubkey))
